@@ -12,6 +12,7 @@ import Golib.HMap.Types
 import Golib.Gen.C12
 import Golib.Gen.C12IR
 import Golib.HMap.IR
+import Golib.HMap.PlainStep
 
 set_option linter.unusedSectionVars false
 
@@ -232,6 +233,22 @@ theorem StringSet_clear_interp (d : Desc K V) (hash : K → Nat) (thr : Nat → 
   | exact ⟨false, by rw [show Gen.C12IR.StringSet_clear = canonClearP false from by decide]; exact canonClearP_correct d hash thr false pm k v⟩
   | exact ⟨true, by rw [show Gen.C12IR.StringSet_clear = canonClearP true from by decide]; exact canonClearP_correct d hash thr true pm k v⟩
 
+/-- the two accepted forms of `clear` (with / without the early return on an empty map: the `∃ early` of the
+    `_clear_interp` theorems) are the same operation: whichever the source has, the result simulates the map model's
+    `clear` (an empty map that is left alone already has only empty buckets) -/
+theorem clear_either_form (pd : PDesc K V) (hash : K → Nat) (thr : Nat → Nat) (pm : PMap K V) (s : PS K V)
+    (h : PMap.Rel hash pd pm s) (early : Bool) :
+    PMap.Rel hash pd (if early = true ∧ pm.count = 0 then pm else pm.clear) (PS.step pd s .clear).1 := by
+  by_cases hc : early = true ∧ pm.count = 0
+  · rw [if_pos hc]
+    have he : s.ents = [] := List.eq_nil_of_length_eq_zero (by rw [← h.count]; exact hc.2)
+    have hs : (PS.step pd s .clear).1 = s := by
+      obtain ⟨ents, mx⟩ := s
+      simp only at he; subst he; rfl
+    rw [hs]; exact h
+  · rw [if_neg hc]
+    exact (PMap.plain_refine_step thr h .clear).1
+
 /-- IntIntMap.Sort -/
 theorem IntIntMap_sort_interp (pd : PDesc K V) (hash : K → Nat) (thr : Nat → Nat) (pm : PMap K V) (lt : K → K → Bool) :
     interpSortP hash thr pd Gen.C12IR.IntIntMap_sort pm lt = pm.sort hash thr pd lt := by
@@ -251,6 +268,91 @@ theorem IntIntMap_wire_interp (pm : PMap Int Int) :
 theorem IntIntMap_setMax_interp (dp : PDesc K V) (hash : K → Nat) (thr : Nat → Nat) (pm : PMap K V) (n : Nat) :
     (runC n Gen.C12IR.IntIntMap_setMax (ofP pm)).map toP = some (PMap.step hash thr dp pm (.setMax n)).1 := by
   rw [show Gen.C12IR.IntIntMap_setMax = canonSetMax from by decide]; exact canonSetMaxP_correct hash thr dp pm n
+
+
+/-! ### one-line accessors -/
+
+/-- IntIntMap.Size / IsEmpty / IsFull -/
+theorem IntIntMap_size_interp (dp : PDesc K V) (hash : K → Nat) (thr : Nat → Nat) (pm : PMap K V) :
+    runA hash Gen.C12IR.IntIntMap_size (ofP pm) = some (PMap.step hash thr dp pm .size).2 ∧
+    runA hash Gen.C12IR.IntIntMap_isEmpty (ofP pm) = some (PMap.step hash thr dp pm .isEmpty).2 ∧
+    runA hash Gen.C12IR.IntIntMap_isFull (ofP pm) = some (PMap.step hash thr dp pm .isFull).2 := by
+  rw [show Gen.C12IR.IntIntMap_size = [ASt.retCount] from by decide, show Gen.C12IR.IntIntMap_isEmpty = [ASt.retCountZero] from by decide,
+    show Gen.C12IR.IntIntMap_isFull = [ASt.retIsFull] from by decide]
+  exact canonSizeP_correct hash thr dp pm
+
+/-- IntKeyMap.Size -/
+theorem IntKeyMap_size_interp (dp : PDesc K V) (hash : K → Nat) (thr : Nat → Nat) (pm : PMap K V) :
+    runA hash Gen.C12IR.IntKeyMap_size (ofP pm) = some (PMap.step hash thr dp pm .size).2 := by
+  rw [show Gen.C12IR.IntKeyMap_size = [ASt.retCount] from by decide]
+  exact (canonSizeP_correct hash thr dp pm).1
+
+/-- IntSet.Size -/
+theorem IntSet_size_interp (dp : PDesc K V) (hash : K → Nat) (thr : Nat → Nat) (pm : PMap K V) :
+    runA hash Gen.C12IR.IntSet_size (ofP pm) = some (PMap.step hash thr dp pm .size).2 := by
+  rw [show Gen.C12IR.IntSet_size = [ASt.retCount] from by decide]
+  exact (canonSizeP_correct hash thr dp pm).1
+
+/-- StringSet.Size -/
+theorem StringSet_size_interp (dp : PDesc K V) (hash : K → Nat) (thr : Nat → Nat) (pm : PMap K V) :
+    runA hash Gen.C12IR.StringSet_size (ofP pm) = some (PMap.step hash thr dp pm .size).2 := by
+  rw [show Gen.C12IR.StringSet_size = [ASt.retCount] from by decide]
+  exact (canonSizeP_correct hash thr dp pm).1
+
+
+/-! ### enumerator objects: every HasMoreElements / Next* method, statement by statement (the skip loop is a `for`) -/
+
+/-- the enumerator object of IntIntMap: `HasMoreElements` is `PEnum.hasMore`, each `Next*` is `PEnum.next` — both run the skip loop
+    `for this.entry == nil && this.index > 0 { this.index--; this.entry = this.table[this.index] }` first -/
+theorem IntIntMap_enum_interp (t : Table K V) (e : PEnum K V) :
+    Gen.C12IR.IntIntMap_enumHasMore ≠ [] ∧ Gen.C12IR.IntIntMap_enumNext ≠ [] ∧
+    (∀ l ∈ Gen.C12IR.IntIntMap_enumHasMore, runEP t l e = some (PEnum.advance t e, .hasMore (PEnum.hasMore t e))) ∧
+    (∀ l ∈ Gen.C12IR.IntIntMap_enumNext, runEP t l e =
+      match PEnum.next t e with
+      | some (c, e') => some (e', .elem c)
+      | none => some (PEnum.advance t e, .exhausted)) := by
+  refine ⟨by decide, by decide, fun l hl => ?_, fun l hl => ?_⟩
+  · rw [(by decide : ∀ l ∈ Gen.C12IR.IntIntMap_enumHasMore, l = canonHasMoreP) l hl]; exact canonHasMoreP_correct t e
+  · rw [(by decide : ∀ l ∈ Gen.C12IR.IntIntMap_enumNext, l = canonNextP) l hl]; exact canonNextP_correct t e
+
+/-- the enumerator object of IntKeyMap: `HasMoreElements` is `PEnum.hasMore`, each `Next*` is `PEnum.next` — both run the skip loop
+    `for this.entry == nil && this.index > 0 { this.index--; this.entry = this.table[this.index] }` first -/
+theorem IntKeyMap_enum_interp (t : Table K V) (e : PEnum K V) :
+    Gen.C12IR.IntKeyMap_enumHasMore ≠ [] ∧ Gen.C12IR.IntKeyMap_enumNext ≠ [] ∧
+    (∀ l ∈ Gen.C12IR.IntKeyMap_enumHasMore, runEP t l e = some (PEnum.advance t e, .hasMore (PEnum.hasMore t e))) ∧
+    (∀ l ∈ Gen.C12IR.IntKeyMap_enumNext, runEP t l e =
+      match PEnum.next t e with
+      | some (c, e') => some (e', .elem c)
+      | none => some (PEnum.advance t e, .exhausted)) := by
+  refine ⟨by decide, by decide, fun l hl => ?_, fun l hl => ?_⟩
+  · rw [(by decide : ∀ l ∈ Gen.C12IR.IntKeyMap_enumHasMore, l = canonHasMoreP) l hl]; exact canonHasMoreP_correct t e
+  · rw [(by decide : ∀ l ∈ Gen.C12IR.IntKeyMap_enumNext, l = canonNextP) l hl]; exact canonNextP_correct t e
+
+/-- the enumerator object of IntSet: `HasMoreElements` is `PEnum.hasMore`, each `Next*` is `PEnum.next` — both run the skip loop
+    `for this.entry == nil && this.index > 0 { this.index--; this.entry = this.table[this.index] }` first -/
+theorem IntSet_enum_interp (t : Table K V) (e : PEnum K V) :
+    Gen.C12IR.IntSet_enumHasMore ≠ [] ∧ Gen.C12IR.IntSet_enumNext ≠ [] ∧
+    (∀ l ∈ Gen.C12IR.IntSet_enumHasMore, runEP t l e = some (PEnum.advance t e, .hasMore (PEnum.hasMore t e))) ∧
+    (∀ l ∈ Gen.C12IR.IntSet_enumNext, runEP t l e =
+      match PEnum.next t e with
+      | some (c, e') => some (e', .elem c)
+      | none => some (PEnum.advance t e, .exhausted)) := by
+  refine ⟨by decide, by decide, fun l hl => ?_, fun l hl => ?_⟩
+  · rw [(by decide : ∀ l ∈ Gen.C12IR.IntSet_enumHasMore, l = canonHasMoreP) l hl]; exact canonHasMoreP_correct t e
+  · rw [(by decide : ∀ l ∈ Gen.C12IR.IntSet_enumNext, l = canonNextP) l hl]; exact canonNextP_correct t e
+
+/-- the enumerator object of StringSet: `HasMoreElements` is `PEnum.hasMore`, each `Next*` is `PEnum.next` — both run the skip loop
+    `for this.entry == nil && this.index > 0 { this.index--; this.entry = this.table[this.index] }` first -/
+theorem StringSet_enum_interp (t : Table K V) (e : PEnum K V) :
+    Gen.C12IR.StringSet_enumHasMore ≠ [] ∧ Gen.C12IR.StringSet_enumNext ≠ [] ∧
+    (∀ l ∈ Gen.C12IR.StringSet_enumHasMore, runEP t l e = some (PEnum.advance t e, .hasMore (PEnum.hasMore t e))) ∧
+    (∀ l ∈ Gen.C12IR.StringSet_enumNext, runEP t l e =
+      match PEnum.next t e with
+      | some (c, e') => some (e', .elem c)
+      | none => some (PEnum.advance t e, .exhausted)) := by
+  refine ⟨by decide, by decide, fun l hl => ?_, fun l hl => ?_⟩
+  · rw [(by decide : ∀ l ∈ Gen.C12IR.StringSet_enumHasMore, l = canonHasMoreP) l hl]; exact canonHasMoreP_correct t e
+  · rw [(by decide : ∀ l ∈ Gen.C12IR.StringSet_enumNext, l = canonNextP) l hl]; exact canonNextP_correct t e
 
 end interpreted2
 
